@@ -1783,6 +1783,17 @@ func (w *htlcWorkload) Next(block int) []rig.Tx {
 			txs = append(txs, tx)
 		}
 	}
+	// every 45 blocks the bank authority switches transfers of one plain denomination off for seven blocks (the bank's
+	// "send enabled" switch is about user transfers): contracts in that denomination that are open meanwhile are still
+	// claimed by their preimage and refunded at their height
+	if !w.shared && (block%45 == 20 || block%45 == 27) {
+		on := block%45 == 27
+		if acc, ok := w.pickAcc(); ok {
+			tag := &htTag{Kind: "bank-switch", Note: fmt.Sprint("send-enabled=", on)}
+			txs = append(txs, w.r.InjectRoute(w.r.Acc(acc), tag, &banktypes.MsgSetSendEnabled{Authority: w.r.GovAddr.String(), SendEnabled: []*banktypes.SendEnabled{{Denom: "tka", Enabled: on}}}))
+			w.run.Count("bank-send-switch-flipped", 1)
+		}
+	}
 	// every 40 blocks the asset with the most outgoing value in flight is taken off the parameter list altogether (its
 	// supply record stays) and put back eight blocks later: transfers of it that expire meanwhile must still be
 	// refunded and released in full
